@@ -56,6 +56,14 @@ theorem selGeom_dyn_valid {sigs : List Sig} {ns : Nodes} (hv : SigsValid ns sigs
   cases s with
   | slice off w' => simp [selGeom] at h
   | bit i => simp [selGeom] at h
+  | sel f =>
+    simp only [selGeom, Option.bind_eq_bind] at h
+    cases hr : f.toSelection.resolve W with
+    | none => simp [hr] at h
+    | some pr =>
+      obtain ⟨o, w'⟩ := pr
+      simp only [hr, Option.bind_some] at h
+      split at h <;> simp at h
   | dynBit idx =>
     simp only [selGeom, Option.bind_eq_bind] at h
     cases hi : idxOf sigs idx with
@@ -114,6 +122,13 @@ theorem sel_match {ns : Nodes} {sigs : List Sig} {env : List Val} (ha : Agree ρ
     simp only [selGeom] at hg
     simp only [selPos, Option.some.injEq, Prod.mk.injEq] at hp
     obtain ⟨rfl, rfl⟩ := hp
+    split at hg
+    · simp at hg; subst hg; exact .stat _ (by omega) rfl
+    · simp at hg
+  | sel f =>
+    simp only [selGeom, Option.bind_eq_bind] at hg
+    simp only [selPos, hW] at hp
+    simp only [hp, Option.bind_some] at hg
     split at hg
     · simp at hg; subst hg; exact .stat _ (by omega) rfl
     · simp at hg
